@@ -112,6 +112,7 @@ type NodeSpec struct {
 	AmLighthouse    bool
 	AcceptRecvError string // always | never | private
 	SendRecvError   string
+	PreferredRanges []string // preferred_ranges (CIDRs)
 }
 
 type Net struct {
@@ -170,6 +171,17 @@ func orDefault(s, d string) string {
 	return s
 }
 
+func preferredYAML(r []string) string {
+	if len(r) == 0 {
+		return ""
+	}
+	out := "preferred_ranges:\n"
+	for _, c := range r {
+		out += "  - " + c + "\n"
+	}
+	return out
+}
+
 func nodeYAML(p *pki, i int, s NodeSpec) string {
 	indent := func(b []byte) string {
 		out := ""
@@ -192,6 +204,7 @@ func nodeYAML(p *pki, i int, s NodeSpec) string {
 		"relay:\n  am_relay: " + yamlBool(s.AmRelay) + "\n  use_relays: " + yamlBool(s.UseRelays) + "\n" +
 		"lighthouse:\n  am_lighthouse: " + yamlBool(s.AmLighthouse) + "\n" +
 		"listen:\n  accept_recv_error: " + orDefault(s.AcceptRecvError, "always") + "\n  send_recv_error: " + orDefault(s.SendRecvError, "always") + "\n" +
+		preferredYAML(s.PreferredRanges) +
 		"logging:\n  level: error\n"
 }
 
